@@ -39,6 +39,9 @@ def _ensure_updated_strategy_flag_set(
     unexpected_keys: Iterable[str],
     error_msgs: Iterable[str],
 ):
+    if not any(key.startswith(prefix) for key in state_dict):
+        # (a partial state dict - load_state_dict(..., strict=False) - that does not address this strategy at all)
+        return
     device = state_dict[list(state_dict.keys())[0]].device
     if prefix + "updated_strategy" not in state_dict:
         state_dict[prefix + "updated_strategy"] = torch.tensor(False, device=device)
